@@ -10,5 +10,6 @@ pub mod cms;
 pub mod bloom;
 pub mod par;
 pub mod cuckoo;
+pub mod extendpaths;
 
 pub use hashers::{Ev, Key, TableHasher};
